@@ -39,8 +39,13 @@ class Known:
             return self._hit('transfer_container_into_itself', ('C01', 'C02'), skip_judge=True)
         if overlap:
             return self._hit('transfer_same_plate_overlap', ('C01', 'C02', 'C07', 'locality'), skip_judge=True)
-        if form == 'list' or (s.sel and s.sel.get('k') == 'list') or (d.sel and d.sel.get('k') == 'list'):
-            return self._hit('transfer_list_selector', ('C01', 'C02', 'C07', 'locality'), skip_judge=True)
+        s_list = bool(s.sel and s.sel.get('k') == 'list')
+        d_list = bool(d.sel and d.sel.get('k') == 'list')
+        if s.kind == 'plate' and d.kind == 'plate' and (s_list or d_list):
+            both = s_list and d_list
+            single_list = (s_list and len(s.cells) == 1 and len(d.cells) > 1) or (d_list and len(d.cells) == 1 and len(s.cells) > 1)
+            if both or single_list:
+                return self._hit('transfer_list_pairing', ('C01', 'C02', 'C07', 'locality'), skip_judge=True)
         return None
 
     def match_fill_to(self, bench, ev, t, solvent, unit):
@@ -53,6 +58,13 @@ class Known:
 # ---- Engine B triggers (run-level: the finding excuses its property's clauses for the whole run)
 def match_recipe_step(self, run, c):
     k = c['c']
+    if k == 'transfer' and len(c['src']) > 1 and len(c['dst']) > 1 and c['src'][1] and c['dst'][1]:
+        sl, dl = c['src'][1].get('k') == 'list', c['dst'][1].get('k') == 'list'
+        if sl or dl:
+            ns = len(c['src'][1].get('cells', [])) if sl else None
+            nd = len(c['dst'][1].get('cells', [])) if dl else None
+            if (sl and dl) or ns == 1 or nd == 1:
+                return self._hit('transfer_list_pairing', ('C07', 'C08'))
     if k == 'fill_to' and len(c['tgt']) > 1 and c['tgt'][1] is not None and c['tgt'][1].get('k') != 'all':
         cells = run.cells_of(c['tgt'], {n: o for n, o in run.eager.items() if o is not None})
         o = run.eager.get(c['tgt'][0])
